@@ -5,7 +5,7 @@ from vlint.facts import callee_of, resolved, AnchorMissing
 from vlint.gates import field_of, root_of
 from vlint.paths import Summariser, ret_okness
 from vlint.terms import show, subterms
-from vlint.util import must_of, sites
+from vlint.util import must_of, sites, field_writes
 from . import daemon
 
 EXPLANATION = (
@@ -119,7 +119,25 @@ def run_on(fb, chk, tag=""):
     wm = must_of(fb, w)
     summ = Summariser(fb, no_inline=lambda g: True)
     outs, sym = summ.paths(w)
-    resets = {bb for bb, t, c in sites(w, name="reset_connection_state")}
+    # reset = the connection-state field is set to None: directly, or through a helper of the daemon that does
+    # exactly that on all its paths
+    resets = set()
+    for g in fb.find(self_adt="VhostUserDaemon"):
+        gsym = must_of(fb, g).sym
+        ws_ = []
+        for x in field_writes(g):
+            if x["field"] != "conn_state":
+                continue
+            v = gsym.rvalue(x["rv"])
+            if v[0] == "agg" and v[2] == "None":
+                ws_.append(x)
+        if not ws_:
+            continue
+        gc = CFG(g)
+        if g.key == w.key:
+            resets |= {x["bb"] for x in ws_}
+        elif gc.all_paths_pass_through(0, gc.returns, {x["bb"] for x in ws_}):
+            resets |= {bb for bb, t, c in sites(w, name=g.name) if resolved(c)["key"] == g.key}
     cases = {"nothread": None, "thread_ok": None, "broken": None, "requested": None, "not_requested": None, "other_err": None}
     all_reset = True
     for o in outs:
@@ -187,10 +205,11 @@ def run_on(fb, chk, tag=""):
         if o.ret is None or not (set(o.path) & set(es)):
             continue
         for a in o.atoms:
-            if a[0] == "variant" and not a[3] and len(a[2]) == 1:
-                nm = next(iter(a[2]))
-                if nm in ("Disconnected", "PartialMessage"):
-                    mapped[nm] = ret_okness(o.ret)
+            if a[0] == "variant" and not a[3]:
+                # one arm per variant, or one or-pattern arm for both
+                for nm in a[2]:
+                    if nm in ("Disconnected", "PartialMessage"):
+                        mapped[nm] = ret_okness(o.ret) if mapped.get(nm, True) is True else mapped[nm]
     chk.check(mapped.get("Disconnected") is True and mapped.get("PartialMessage") is True, "H4", tag + "disconnect-mapping",
               "Disconnected / PartialMessage -> Ok", "serve maps clean disconnects to %s" % mapped, sv.loc())
     # ------------------------------------------------------------------ H5
